@@ -157,6 +157,11 @@ theorem encodeCanon_injective (v w : JVal) (hv : v.numsOk = true) (hw : w.numsOk
     (h : encodeCanon v = encodeCanon w) : v.sorted.normNums = w.sorted.normNums :=
   encodeCanon_inj v w hv hw h
 
+/-- Value-level form (used by the signing properties): serialising a value in any member order and
+    canonicalising gives the value's canonical bytes. -/
+theorem canonical_of_rendering (v : JVal) (hv : v.numsOk = true) : canonical (encode v) = .ok (encodeCanon v) :=
+  canonical_encode v hv
+
 /-- The enforced variant rejects every text containing a number that fails `numOk`
     (non-integer literal, `-0`, or magnitude above 2^53-1), wherever it is nested. -/
 theorem enforced_rejects (t : Bytes) (p : PVal) (hp : parse t = some p)
@@ -197,6 +202,13 @@ example : (canonical exampleText).toOption = some exampleCanon ∧
 /-- `[1, {"a": 1.5}]` contains the non-integer literal `1.5` (hypothesis of `enforced_rejects`). -/
 example : (parse [0x5B, 0x31, 0x2C, 0x20, 0x7B, 0x22, 0x61, 0x22, 0x3A, 0x20, 0x31, 0x2E, 0x35, 0x7D, 0x5D]).any
     (fun p => p.numbers.any (fun lit => !numOk lit)) = true := by decide
+
+/-- Why `surrogatesOk` (implied by `wellFormed`) cannot be dropped from `canonical_eq_spec`: on `"\ud800"`
+    (a lone surrogate escape) the specification says `"\uFFFD"` (gjson's decoding) but `CompactJSON` drops
+    the escape and the result is `""`.  Confirmed on the Go code (`json.canon 225c756438303022` ↦ `ok:2222`).
+    Such texts are outside C01's quantifier ("well-formed Unicode"). -/
+example : canonicalSpec [0x22, 0x5C, 0x75, 0x64, 0x38, 0x30, 0x30, 0x22] = some [0x22, 0xEF, 0xBF, 0xBD, 0x22] ∧
+    (canonical [0x22, 0x5C, 0x75, 0x64, 0x38, 0x30, 0x30, 0x22]).toOption = some [0x22, 0x22] := by decide
 
 /-- invalid texts exist (hypothesis of `canonical_rejects_invalid`): `{"a":1,}` -/
 example : parse [0x7B, 0x22, 0x61, 0x22, 0x3A, 0x31, 0x2C, 0x7D] = none := by decide
